@@ -32,6 +32,11 @@ def run(ctx):
             cases.append(common.normalize(wide(rng, rng.choice([0, 1, 1, 2]))))
         else:
             cases.append(trees.mixed_tree(ctx, rng, p_parsed=0.5, names=False)[1])
+        if rng.random() < 0.25:
+            # a near-identical tree right after (one attribute, one child differs): a memo on a lossy digest would show
+            mu = gen.mutate_tree(rng, cases[-1])
+            if mu is not None and not any(n["n"] is not None for _, n in common.tree_nodes(mu[0])):
+                cases.append(common.normalize(mu[0]))
     reqs, exp = [], []
     for d in cases:
         o = common.load_tree(d)
